@@ -43,9 +43,22 @@ closing tag) at nesting depth 0, 1 and 2 of an established stream, the verdict o
 real reader (regenerated on every run through real sessions) is `verdict` of the model — in
 particular an XML declaration is *not* skipped once the stream is established -/
 theorem C08_gen_verdicts :
-    ∃ t, Generated.C08.readerVerdicts = some t ∧ t.length = 61 ∧
+    ∃ t, Generated.C08.readerVerdicts = some t ∧ t.length = 70 ∧
       ∀ e ∈ t, factVerdict e.1 e.2.1 = some e.2.2 := by
   refine ⟨_, rfl, by decide, by decide⟩
+
+/-- **the same on sessions that use the WebSocket subprotocol** (`Session.ws`, set when the
+negotiation context carries the marker of the websocket package): the verdicts observed on real
+sessions for the same 70 (kind, depth) pairs are the model's `verdict` on the relabelled input
+(`wsTok true`): `<close/>` in the framing namespace (bare, prefixed, with attributes) is the end
+of the stream at depth 0 and a restart at depth 1 and 2, every other framing element a restart at
+every depth; an element named `close` in another namespace and everything else is as on TCP -/
+theorem C08_gen_verdicts_ws :
+    ∃ t, Generated.C08.readerVerdictsWs = some t ∧ t.length = 70 ∧
+      (∀ e ∈ t, factVerdictW true e.1 e.2.1 = some e.2.2) ∧
+      (∀ e ∈ t, factVerdictW true e.1 e.2.1 = factVerdict e.1 e.2.1 ∨
+        e.1 ∈ ["framing-open", "framing-close", "framing-other", "framing-close-attrs"]) := by
+  refine ⟨_, rfl, by decide, by decide, by decide⟩
 
 /-- while a stream header is expected only white space and an XML declaration (target exactly
 `xml`) may precede it; every other construct ends the negotiation with its error -/
@@ -54,6 +67,15 @@ theorem C08_gen_header_verdicts :
       ("ws", "header-reached"), ("text", "chardata"), ("comment", "comment"),
       ("pi-xml", "header-reached"), ("pi-XML", "procinst"), ("pi-stylesheet", "procinst"),
       ("pi-x", "procinst"), ("directive", "directive")] := by decide
+
+/-- **every `SetCloseDeadline` call replaces the input context** — tied to the source: for every
+sequence of up to three calls (a time in the future, in the past, in the near future followed by
+a wait) made by the handler of a real session, whether the session then gives up with the deadline
+error before the next element (regenerated on every run, 40 rows) is the model's `expiredAfter` -/
+theorem C08_gen_deadlines :
+    ∃ t, Generated.C08.deadlineVerdicts = some t ∧ t.length = 40 ∧
+      ∀ r ∈ t, expiredAfter r.1 false = r.2 := by
+  refine ⟨_, rfl, by decide, by decide⟩
 
 /-! ### whatever the output state is -/
 
@@ -95,17 +117,18 @@ theorem encWire_balanced : ∀ (ts : List Tok) (d d' : Nat), depthAfter d ts = s
     | procInst a b => simp only [depthAfter] at h; simp [encWire, ih _ _ h]
     | directive s => simp only [depthAfter] at h; simp [encWire, ih _ _ h]
 
-/-- with the output open and a handler that does not close it, the model with output states is
-the model of the other theorems, up to what the encoder lets through (`encWire`, the identity
+/-- with the output open and a handler that does not close it and writes whole elements (or
+nothing), the model with output states is the model of the other theorems, up to what the encoder lets through (`encWire`, the identity
 on whole elements) -/
-theorem C08_open_output (cfg : Cfg) (rs : RS) (prog : Prog) (hc : prog.close = false) :
+theorem C08_open_output (cfg : Cfg) (rs : RS) (prog : Prog) (hc : prog.close = false)
+    (hb : leavesBroken (writesOf prog.ops) = false) :
     handleInputStreamC cfg .opn rs prog
       = (handleInputStream cfg rs prog).mapWritten fun w => (encWire 0 w).2.2 := by
   unfold handleInputStreamC handleInputStream
   generalize ({ rs with dOut := 0, sticky := none } : RS).next = r
   obtain ⟨rd, rs1⟩ := r
   cases rd with
-  | tok t => cases t <;> simp [handleElemC, hc, Step.mapWritten, encWire]
+  | tok t => cases t <;> simp [handleElemC, hc, hb, Step.mapWritten, encWire]
   | err e => simp [Step.mapWritten, encWire]
   | eof => simp [Step.mapWritten, encWire]
 
@@ -121,11 +144,13 @@ theorem C08_output_state_never_clean (cfg : Cfg) (st : OutSt) (n : Name) (as : L
   by_cases h1 : (st1 == OutSt.opn) = true
   · rw [if_pos h1]
     intro h
-    cases hx : handleElem cfg n as rs1 prog with
-    | next i w' rs => simp [hx, Step.mapWritten] at h
-    | stop i w' r =>
-      simp [hx, Step.mapWritten] at h
-      exact handleElem_never_clean cfg n as rs1 prog inv w' (by rw [hx, h.1, h.2.2])
+    split at h
+    · simp at h
+    · cases hx : handleElem cfg n as rs1 prog with
+      | next i w' rs => simp [hx, Step.mapWritten] at h
+      | stop i w' r =>
+        simp [hx, Step.mapWritten] at h
+        exact handleElem_never_clean cfg n as rs1 prog inv w' (by rw [hx, h.1, h.2.2])
   · rw [if_neg h1]
     split
     · repeat' split
@@ -572,10 +597,10 @@ theorem C08_top_restart (cfg : Cfg) (as : List Attr) (rest : List Tok) (progs : 
 
 /-- any other element of the stream namespace ends the session -/
 theorem C08_top_unknown (cfg : Cfg) (l : String) (as : List Attr) (rest : List Tok) (progs : List Prog)
-    (h1 : l ≠ "error") (h2 : l ≠ "stream") :
+    (h1 : l ≠ "error") (h2 : l ≠ "stream") (h3 : l ≠ wsCloseMark) :
     serve cfg (.start ⟨nsStream, l⟩ as :: rest) progs
       = { invs := [], written := [], result := .error .unknownElem } := by
-  simp [serve, serveF, handleInputStream, RS.next, RS.init, verdict, h1, h2]
+  simp [serve, serveF, handleInputStream, RS.next, RS.init, verdict, h1, h2, h3]
 
 /-- **a received stream error is returned as such**: the session ends with that error (its
 condition is the one the peer sent) and no handler runs -/
@@ -730,5 +755,340 @@ theorem C08_handler_error_ends (cfg : Cfg) (fuel : Nat) (rs rs1 : RS) (n : Name)
   unfold serveF
   rw [hh, he]
   rfl
+
+/-! ### Round E: sessions that use the WebSocket subprotocol -/
+
+/-- a token that the framing check does not concern -/
+def noFraming : Tok → Bool
+  | .start n _ => n.space != nsFraming
+  | _ => true
+
+theorem wsTok_false (d : Nat) (t : Tok) : wsTok false d t = t := by
+  cases t <;> simp [wsTok]
+
+theorem wsInputD_false : ∀ (inp : List Tok) (d : Nat), wsInputD false d inp = inp := by
+  intro inp
+  induction inp with
+  | nil => intro d; rfl
+  | cons t ts ih => intro d; simp [wsInputD, wsTok_false, ih]
+
+/-- on a TCP session (`ws = false`) nothing is relabelled: framing elements are ordinary content -/
+theorem C08_ws_off_unchanged (cfg : Cfg) (inp : List Tok) (progs : List Prog) :
+    serve cfg (wsInput false inp) progs = serve cfg inp progs := by
+  rw [wsInput, wsInputD_false]
+
+theorem wsTok_noFraming (ws : Bool) (d : Nat) (t : Tok) (h : noFraming t = true) : wsTok ws d t = t := by
+  cases t with
+  | start n as =>
+    have : (n.space == nsFraming) = false := by simpa [noFraming] using h
+    simp [wsTok, this]
+  | _ => rfl
+
+/-- nesting after a token list -/
+def depthAfterD (d : Nat) (l : List Tok) : Nat := l.foldl depthStep d
+
+theorem wsInputD_append (ws : Bool) : ∀ (l r : List Tok) (d : Nat),
+    wsInputD ws d (l ++ r) = wsInputD ws d l ++ wsInputD ws (depthAfterD d l) r := by
+  intro l
+  induction l with
+  | nil => intro r d; rfl
+  | cons t ts ih => intro r d; simp [wsInputD, depthAfterD, ih]
+
+theorem wsInputD_noFraming (ws : Bool) : ∀ (l : List Tok) (d : Nat), (∀ t ∈ l, noFraming t = true) →
+    wsInputD ws d l = l := by
+  intro l
+  induction l with
+  | nil => intro _ _; rfl
+  | cons t ts ih =>
+    intro d h
+    simp only [wsInputD]
+    rw [wsTok_noFraming ws d t (h t (by simp)), ih _ (fun x hx => h x (by simp [hx]))]
+
+/-- **the peer's `<close/>` ends Serve without error** on a WebSocket session: at top level the
+framing element named `close`, whatever its attributes and whatever follows, ends the session
+cleanly; no handler is invoked for it -/
+theorem C08_ws_close_ends_cleanly (cfg : Cfg) (as : List Attr) (rest : List Tok) (progs : List Prog) :
+    serve cfg (wsInput true (.start ⟨nsFraming, "close"⟩ as :: rest)) progs
+      = { invs := [], written := [], result := .clean } := by
+  simp [wsInput, wsInputD, wsTok, serve, serveF, handleInputStream, RS.next, RS.init, verdict, nsFraming, nsStream, wsCloseMark]
+
+/-- **a stream restart never reaches a handler** on a WebSocket session: any other element of the
+framing namespace at top level (`<open/>` is how a stream is restarted there) ends the session
+with the restart error; no handler is invoked -/
+theorem C08_ws_framing_is_restart (cfg : Cfg) (l : String) (as : List Attr) (rest : List Tok) (progs : List Prog)
+    (hl : l ≠ "close") :
+    serve cfg (wsInput true (.start ⟨nsFraming, l⟩ as :: rest)) progs
+      = { invs := [], written := [], result := .error .restart } := by
+  simp [wsInput, wsInputD, wsTok, serve, serveF, handleInputStream, RS.next, RS.init, verdict, nsFraming, nsStream, hl]
+
+/-- **no framing element ever reaches a handler** on a WebSocket session, at any depth, for every
+input and every list of programs: every start tag of the framing namespace is, in the session's
+input, a token that is not ordinary content (first part), and every invocation starts at and
+only ever reads ordinary content (second part, `C08_stream_level_hidden` on the relabelled input) -/
+theorem C08_ws_framing_hidden (cfg : Cfg) (inp : List Tok) (progs : List Prog) :
+    (∀ d n as, n.space = nsFraming → plainTok (wsTok true d (.start n as)) = false) ∧
+    ∀ i ∈ (serve cfg (wsInput true inp) progs).invs, InvClean i := by
+  refine ⟨?_, fun i hi => serveF_clean cfg _ _ _ i hi⟩
+  intro d n as hn
+  by_cases hc : (n.loc == "close" && d == 0) = true <;> simp [wsTok, hn, hc, plainTok]
+
+/-- **one invocation per element, closed by `<close/>`**: on a WebSocket session a sequence of
+well-formed elements (none of them containing a framing start tag) followed by the peer's
+`<close/>` gives exactly one invocation per element, in order, and `Serve` returns nil -/
+theorem C08_ws_one_per_element (cfg : Cfg) (cs : List Case) (as : List Attr) (junk : List Tok)
+    (hok : ∀ c ∈ cs, c.Ok cfg) (hnf : ∀ t ∈ cs.flatMap Case.toks, noFraming t = true)
+    (hbal : depthAfterD 0 (cs.flatMap Case.toks) = 0) :
+    serve cfg (wsInput true (cs.flatMap Case.toks ++ .start ⟨nsFraming, "close"⟩ as :: junk)) (cs.map (·.prog))
+      = { invs := cs.map (Case.inv cfg), written := cs.flatMap Case.written, result := .clean } := by
+  have hin : wsInput true (cs.flatMap Case.toks ++ .start ⟨nsFraming, "close"⟩ as :: junk)
+      = cs.flatMap Case.toks ++ .start ⟨nsStream, wsCloseMark⟩ as :: wsInputD true 1 junk := by
+    unfold wsInput
+    rw [wsInputD_append, wsInputD_noFraming true _ 0 hnf, hbal]
+    simp [wsInputD, wsTok, nsFraming, depthStep]
+  rw [hin]
+  have hlen : cs.length ≤ (cs.flatMap Case.toks).length := by
+    clear hnf hin hbal
+    induction cs with
+    | nil => simp
+    | cons c cs ih =>
+      have := ih (fun x hx => hok x (by simp [hx]))
+      rw [List.flatMap_cons, List.length_append]
+      simp only [Case.toks, List.length_cons]
+      omega
+  unfold serve
+  obtain ⟨f, hf⟩ : ∃ f, (cs.flatMap Case.toks ++ Tok.start ⟨nsStream, wsCloseMark⟩ as :: wsInputD true 1 junk).length + 1
+      = (f + 1) + cs.length :=
+    ⟨(cs.flatMap Case.toks).length - cs.length + (wsInputD true 1 junk).length + 1, by
+      rw [List.length_append, List.length_cons]; omega⟩
+  rw [hf]
+  have := serveF_cases cfg cs (f + 1) 0 (.start ⟨nsStream, wsCloseMark⟩ as :: wsInputD true 1 junk) hok
+  simp only [RS.init]
+  rw [this]
+  simp [serveF, handleInputStream, RS.next, verdict, nsStream, wsCloseMark]
+
+/-- **a `<close/>` inside another element is not the end of the stream**: nested at any depth
+`d + 1` every framing start tag, `close` included, is the restart error for the reader — the
+handler's view of the element ends with an error, never with an early EOF, and (by
+`C08_nested_construct`) the session ends with that error after the invocation -/
+theorem C08_ws_nested_close_is_error (d : Nat) (l : String) (as : List Attr) (depth : Nat) (rest : List Tok) :
+    (verdict depth (wsTok true (d + 1) (.start ⟨nsFraming, l⟩ as)) rest).2 = .err .restart := by
+  simp [wsTok, verdict, nsFraming, nsStream]
+
+example : (serve { ns := nsClient, localBare := "me@example.com", jidCanon := fun _ => none }
+    (wsInput true [.start ⟨nsClient, "message"⟩ [], .start ⟨nsFraming, "close"⟩ [], .start ⟨nsFraming, "close"⟩ [],
+      .stop ⟨nsFraming, "close"⟩, .stop ⟨nsFraming, "close"⟩, .stop ⟨nsClient, "message"⟩])
+    [{ ops := [.read, .read, .read], ret := .ok }]).result = .error .restart := by decide
+
+example : (serve { ns := nsClient, localBare := "me@example.com", jidCanon := fun _ => none }
+    (wsInput true [.start ⟨nsClient, "message"⟩ [], .start ⟨nsFraming, "open"⟩ [], .stop ⟨nsFraming, "open"⟩,
+      .stop ⟨nsClient, "message"⟩, .start ⟨nsClient, "presence"⟩ [], .stop ⟨nsClient, "presence"⟩])
+    [{ ops := [.read, .read, .read], ret := .ok }]).result = .error .restart := by decide
+
+/-! ### Round E: every serve machine hides the stream level
+
+The theorems above are about `serve`; the driver answers `servex` lines with `serveFC` (state of
+the output, close deadline) and `servepw` lines with `serveFP` (pending requests).  The
+invocations of those machines are clean too. -/
+
+theorem Step.inv_mapWritten (f : List Tok → List Tok) (x : Step) : (x.mapWritten f).inv = x.inv := by
+  cases x <;> rfl
+
+theorem Step.inv_dropWritten (x : Step) : x.dropWritten.inv = x.inv := by
+  cases x <;> rfl
+
+theorem handleElemC_clean (cfg : Cfg) (st : OutSt) (n : Name) (as : List Attr) (rs1 : RS) (prog : Prog)
+    (hn : plainTok (.start n as) = true) :
+    ∀ i, (handleElemC cfg st n as rs1 prog).inv = some i → InvClean i := by
+  intro i hi
+  have hv := runOps_clean (getId (blankFrom cfg n as)) prog.ops { rs := rs1, cnt := 0, fin := false } WS.init []
+    (by intro t ht; simp at ht)
+  unfold handleElemC at hi
+  simp only at hi
+  generalize (if prog.close = true then OutSt.closed else st) = st1 at hi
+  by_cases h1 : (st1 == OutSt.opn) = true
+  · rw [if_pos h1] at hi
+    split at hi
+    · have key : i = Serve.Inv.mk (Tok.start n (blankFrom cfg n as))
+          (runOps (getId (blankFrom cfg n as)) prog.ops { rs := rs1, cnt := 0, fin := false } WS.init []).1 := by
+        simp [Step.inv] at hi; exact hi.symm
+      subst key
+      exact ⟨⟨n, _, rfl, by simpa [plainTok] using hn⟩, hv⟩
+    · rw [Step.inv_mapWritten] at hi; exact handleElem_clean cfg n as rs1 prog hn i hi
+  · rw [if_neg h1] at hi
+    cases hret : prog.ret <;> simp only [hret] at hi
+    case ok =>
+      have key : i = Serve.Inv.mk (Tok.start n (blankFrom cfg n as))
+          (runOps (getId (blankFrom cfg n as)) prog.ops { rs := rs1, cnt := 0, fin := false } WS.init []).1 := by
+        repeat' split at hi
+        all_goals (simp [Step.inv] at hi; exact hi.symm)
+      subst key
+      exact ⟨⟨n, _, rfl, by simpa [plainTok] using hn⟩, hv⟩
+    all_goals (rw [Step.inv_dropWritten] at hi; exact handleElem_clean cfg n as rs1 prog hn i hi)
+
+theorem handleInputStreamC_clean (cfg : Cfg) (st : OutSt) (rs : RS) (prog : Prog) :
+    ∀ i, (handleInputStreamC cfg st rs prog).inv = some i → InvClean i := by
+  intro i hi
+  unfold handleInputStreamC at hi
+  generalize hn : ({ rs with dOut := 0, sticky := none } : RS).next = r at hi
+  obtain ⟨rd, rs1⟩ := r
+  cases rd with
+  | tok t =>
+    cases t with
+    | start n as => exact handleElemC_clean cfg st n as rs1 prog (RS.next_tok hn) i hi
+    | _ => exact handleInputStream_clean cfg rs prog i hi
+  | _ => exact handleInputStream_clean cfg rs prog i hi
+
+/-- **nothing stream-level is ever visible, whatever the state of the output and the close
+deadline**: every invocation of `serveFC` (output open / left inside an element / closed — before
+`Serve` or by a handler —, any sequence of `SetCloseDeadline` calls) starts at a start tag outside
+the stream namespace and reads only ordinary content -/
+theorem C08_stream_level_hidden_any_output (cfg : Cfg) : ∀ (fuel : Nat) (st : OutSt) (e : Bool) (rs : RS)
+    (progs : List Prog), ∀ i ∈ (serveFC cfg fuel st e rs progs).invs, InvClean i := by
+  intro fuel
+  induction fuel with
+  | zero => intro st e rs progs i hi; simp [serveFC] at hi
+  | succ f ih =>
+    intro st e rs progs i hi
+    unfold serveFC at hi
+    cases e with
+    | true => simp at hi
+    | false =>
+      simp only [Bool.false_eq_true, ↓reduceIte] at hi
+      have hc := handleInputStreamC_clean cfg st rs (progs.headD Prog.nop)
+      generalize hs : handleInputStreamC cfg st rs (progs.headD Prog.nop) = x at hi hc
+      cases x with
+      | stop inv w res =>
+        simp only at hi
+        cases inv with
+        | none => simp at hi
+        | some j =>
+          have : i = j := by simpa using hi
+          rw [this]; exact hc j rfl
+      | next inv w rs' =>
+        dsimp only at hi
+        rw [List.mem_append] at hi
+        rcases hi with hi | hi
+        · cases inv with
+          | none => simp at hi
+          | some j =>
+            have : i = j := by simpa using hi
+            rw [this]; exact hc j rfl
+        · exact ih _ _ _ _ i hi
+
+/-- an element that is not handed to a waiter is handled exactly as without any table: the step
+is `handleInputStream`'s, the table is unchanged -/
+theorem C08_unawaited_element_handled (cfg : Cfg) (pend : List Pend) (rs : RS) (prog : Prog)
+    (h : deliveredTo cfg pend rs = none) :
+    handleInputStreamP cfg pend rs prog = (handleInputStream cfg rs prog, pend, none) := by
+  simp [handleInputStreamP, h]
+
+theorem handleInputStreamP_clean (cfg : Cfg) (pend : List Pend) (rs : RS) (prog : Prog) :
+    ∀ i, (handleInputStreamP cfg pend rs prog).1.inv = some i → InvClean i := by
+  intro i hi
+  unfold handleInputStreamP at hi
+  split at hi
+  · split at hi <;> simp [Step.inv] at hi
+  · exact handleInputStream_clean cfg rs prog i hi
+
+/-- **nothing stream-level is ever visible while local requests are pending**: every invocation
+of `serveFP` is clean, for every table, input and list of programs -/
+theorem C08_stream_level_hidden_pending (cfg : Cfg) : ∀ (fuel : Nat) (pend : List Pend) (rs : RS)
+    (progs : List Prog), ∀ i ∈ (serveFP cfg fuel pend rs progs).out.invs, InvClean i := by
+  intro fuel
+  induction fuel with
+  | zero => intro pend rs progs i hi; simp [serveFP] at hi
+  | succ f ih =>
+    intro pend rs progs i hi
+    unfold serveFP at hi
+    have hc := handleInputStreamP_clean cfg pend rs (progs.headD Prog.nop)
+    generalize hs : handleInputStreamP cfg pend rs (progs.headD Prog.nop) = x at hi hc
+    obtain ⟨x, pend', dl⟩ := x
+    cases x with
+    | stop inv w res =>
+      simp only at hi
+      cases inv with
+      | none => simp at hi
+      | some j =>
+        have : i = j := by simpa using hi
+        rw [this]; exact hc j rfl
+    | next inv w rs' =>
+      simp only [List.mem_append] at hi
+      rcases hi with hi | hi
+      · cases inv with
+        | none => simp at hi
+        | some j =>
+          have : i = j := by simpa using hi
+          rw [this]; exact hc j rfl
+      · exact ih _ _ _ i hi
+
+/-! ### Round E: the life cycle of a request that expects a response -/
+
+theorem find?_filter_ne (tbl : List Pend) (id : String) :
+    (tbl.filter (fun p => p.id != id)).find? (fun p => p.id == id) = none := by
+  induction tbl with
+  | nil => rfl
+  | cons p ps ih =>
+    by_cases h : p.id = id
+    · simp [List.filter, h, ih]
+    · have h' : (p.id != id) = true := by simpa using h
+      have h'' : (p.id == id) = false := by simpa using h
+      simp [List.filter, h', List.find?, h'', ih]
+
+/-- **a request that is over leaves no entry**: after `sendResp` returned — the transmission of
+the request failed, or the caller's context ended while it waited — the table holds no entry for
+its id (whatever was there before) -/
+theorem C08_finished_request_not_pending (tbl : List Pend) (r : Req) (hf : r.fate ≠ .waiting) (n : Name) :
+    pendMatch (sendRespTable tbl r) r.id n = none := by
+  have : sendRespTable tbl r
+      = (tbl.filter (fun p : Pend => p.id != r.id) ++ [(⟨r.id, r.name⟩ : Pend)]).filter (fun p : Pend => p.id != r.id) := by
+    unfold sendRespTable
+    cases hfa : r.fate with
+    | waiting => exact absurd hfa hf
+    | sendFailed => rfl
+    | gaveUp => rfl
+  rw [this]
+  unfold pendMatch
+  rw [find?_filter_ne]
+
+/-- … and the entries of the other requests are untouched -/
+theorem C08_finished_request_keeps_others (tbl : List Pend) (r : Req) (hf : r.fate ≠ .waiting)
+    (hfresh : ∀ p ∈ tbl, p.id ≠ r.id) : sendRespTable tbl r = tbl := by
+  have hfil : tbl.filter (fun p : Pend => p.id != r.id) = tbl := by
+    rw [List.filter_eq_self]
+    intro p hp
+    simpa using hfresh p hp
+  unfold sendRespTable
+  cases hfa : r.fate with
+  | waiting => exact absurd hfa hf
+  | sendFailed => simp [List.filter_append, hfil]
+  | gaveUp => simp [List.filter_append, hfil]
+
+/-- **a response nobody waits for goes to the handler**: when the only request with that id is
+over (failed transmission / gave up), an incoming element — also a result or error with exactly
+that id and name — is handled like any other element: the step is `handleInputStream`'s, in
+arrival order, and the table is unchanged -/
+theorem C08_response_to_finished_request_is_handled (cfg : Cfg) (tbl : List Pend) (r : Req)
+    (hf : r.fate ≠ .waiting) (rs : RS) (prog : Prog)
+    (hid : ∀ n as rs1, ({ rs with dOut := 0, sticky := none } : RS).next = (.tok (.start n as), rs1) →
+      getId (blankFrom cfg n as) = r.id) :
+    handleInputStreamP cfg (sendRespTable tbl r) rs prog
+      = (handleInputStream cfg rs prog, sendRespTable tbl r, none) := by
+  apply C08_unawaited_element_handled
+  unfold deliveredTo
+  generalize hn : ({ rs with dOut := 0, sticky := none } : RS).next = x
+  obtain ⟨rd, rs1⟩ := x
+  cases rd with
+  | tok t =>
+    cases t with
+    | start n as =>
+      simp only
+      split
+      · rw [hid n as rs1 hn, C08_finished_request_not_pending tbl r hf n]; rfl
+      · rfl
+    | _ => rfl
+  | _ => rfl
+
+example : tableOf [⟨"p1", ⟨"", "iq"⟩, .sendFailed⟩, ⟨"p2", ⟨"", "iq"⟩, .waiting⟩, ⟨"p3", ⟨"", "iq"⟩, .gaveUp⟩]
+    = [⟨"p2", ⟨"", "iq"⟩⟩] := by decide
 
 end XmppModel.Props.C08
